@@ -257,3 +257,11 @@ Example C18_announce_after_file_removed :
    announce_list true u, announce_list false u)
   = ([hB], [], [hB], 2%nat, [], [hA]).
 Proof. vm_compute. reflexivity. Qed.
+
+(* C18_files_finished holds for EVERY file size: a file above MAX_BLOB_SIZE (2 MiB) dropped into the directory
+   is recorded by the next start and reported by the one after, like any other *)
+Example C18_oversized_file_recorded :
+  let s := run init [OExtFile hA 2097152; OExtFile hB 2097153; OExtFile hC 6291461; ORestart] in
+  (db_status (db s) hA, db_status (db s) hB, db_status (db s) hC, length (completed (restart s)))
+  = (Some Finished, Some Finished, Some Finished, 3%nat).
+Proof. vm_compute. reflexivity. Qed.
